@@ -291,4 +291,29 @@ theorem print_default_ofmt (dg : DigitGen) (x : F64) :
 
 example : (-1 : Int) < 0 ∧ truncMag 3 (-1) * 2 ^ (1 : Nat) ≠ 3 := by decide
 
+/-! ### print in every output mode converts with OFMT; everything else converts with CONVFMT -/
+
+/-- in the default, CSV and TSV output modes alike, what `print` writes is determined by the texts `value.str(OFMT)` of its
+arguments (numbers: integer or OFMT; strings and fields: their text) — CONVFMT plays no part -/
+theorem print_converts_with_ofmt_every_mode (dg : DigitGen) (mode : OutMode) (ofmt ofs ors : Bytes) (args : List Val) (texts : List Bytes)
+    (h : args.map (valToStr dg ofmt) = texts.map Res.ok) :
+    printArgs dg mode ofmt ofs ors args = emitRecord mode ofs ors texts := by
+  have hc : ∀ ts : List Bytes, collectTexts (ts.map Res.ok) = .ok ts := by
+    intro ts; induction ts with
+    | nil => rfl
+    | cons t r ih => simp [collectTexts, ih]
+  simp [printArgs, h, hc]
+
+/-- a string or field argument is written as its text, a number through `numToStr OFMT` (see `print_integral`, `print_uses_ofmt`) -/
+theorem print_arg_text (dg : DigitGen) (ofmt : Bytes) (s : Bytes) (x : F64) :
+    valToStr dg ofmt (.str s) = .ok s ∧ valToStr dg ofmt (.num x) = numToStr dg ofmt x := ⟨rfl, rfl⟩
+
+/-- the non-print conversion is the same function at CONVFMT -/
+theorem tostring_uses_convfmt (dg : DigitGen) (convfmt : Bytes) (v : Val) :
+    toStringConv dg convfmt v = valToStr dg convfmt v := rfl
+
+/-- OFMT `%.2f`, CONVFMT irrelevant: 2.5 (= 5·2⁻¹) and the field text `x` in CSV mode give `2.50,x` (digit text from the generator) -/
+example : printArgs ⟨fun _ _ _ _ _ => [50, 46, 53, 48]⟩ .csv [37, 46, 50, 102] [32] [10] [.num (.fin false 5 (-1)), .str [120]]
+    = .ok [50, 46, 53, 48, 44, 120, 10] := by decide
+
 end GoawkModel.C09.Props
